@@ -21,7 +21,9 @@ RULE = ("(specs, exhaustive) on an exact ancilla environment with N+1 grid point
         "then. (pairs, nt) Hypothesis-generated pairs of specifications, 3-4 operators with left/right orderings, start_time "
         "!= 0, PT-TEMPO self-consistency (spec vs int,int). (dt) the dt argument with dt-less / equal / different tensor dt. "
         "(anti) anti-ordered = conj of ordered with operators exchanged and daggered, transposed. (bath) "
-        "TwoTimeBathCorrelations occupation/correlation vs the displaced-oscillator closed form for pure dephasing. "
+        "TwoTimeBathCorrelations occupation/correlation vs the displaced-oscillator closed form for pure dephasing, "
+        "followed by 0-3 further queries to the same object (repeated or new arguments, band widths dw in {0.3,0.5,1,2}, "
+        "interaction picture on/off, change_only on/off), each against the closed form. "
         "Non-trivial: the specification selects >=2 times and is not ascending-contiguous, or an interval is reversed, or "
         ">=3 operators; distinct = distinct canonical JSON.")
 TECHNIQUE = "exhaustive enumeration of the time-specification space + Hypothesis property-based testing against exact reference correlations"
@@ -458,7 +460,14 @@ def s_bath(draw, tier):
             "T": draw(st.sampled_from([0.0, 0.4, 1.0])), "alpha": draw(st.sampled_from([0.05, 0.15])),
             "N": draw(st.integers(4, 8)), "w1": draw(st.sampled_from([0.9, 1.7, 2.5])),
             "w2": draw(st.sampled_from([None, 0.9, 1.7])), "k1": draw(st.integers(1, 3)), "k2": draw(st.integers(3, 4)),
-            "dagg": draw(st.sampled_from([[1, 0], [0, 1], [0, 0], [1, 1]])), "dw": draw(st.sampled_from([1.0, 0.5]))}
+            "dagg": draw(st.sampled_from([[1, 0], [0, 1], [0, 0], [1, 1]])), "dw": draw(st.sampled_from([1.0, 0.5])),
+            # further queries to the SAME object (repeated arguments with other band widths / pictures / flags)
+            "queries": draw(st.lists(st.fixed_dictionaries({
+                "kind": st.sampled_from(["correlation", "correlation", "occupation"]),
+                "same_as_first": st.booleans(), "w1": st.sampled_from([0.9, 1.7, 2.5]), "w2": st.sampled_from([None, 0.9, 1.7]),
+                "k1": st.integers(1, 3), "k2": st.integers(3, 4), "dagg": st.sampled_from([[1, 0], [0, 1], [0, 0], [1, 1]]),
+                "dw": st.lists(st.sampled_from([1.0, 0.5, 2.0, 0.3]), min_size=2, max_size=2),
+                "ip": st.booleans(), "change_only": st.booleans()}), min_size=0, max_size=3))}
 
 
 def run_bath(case):
@@ -498,6 +507,35 @@ def run_bath(case):
           (1, 1): g2 * np.conj(f(w2, t2)) * np.conj(f(w1, t1))}[dg]
     c = bd.correlation(w1, t1, freq_2=w2, time_2=t2, dagg=dg, progress_type="silent")
     out.check_close("bath/correlation", complex(c), complex(ex), 1e-7 * max(1.0, abs(ex)), f"dagg={dg}")
+    first = dict(w1=w1, w2=w2, k1=case["k1"], k2=case["k2"], dagg=list(dg))
+    for qi, q in enumerate(case.get("queries", [])):
+        q = dict(q, **first) if q["same_as_first"] else dict(q, w2=q["w2"] or q["w1"])
+        a1, a2 = q["w1"], q["w2"]
+        if q["kind"] == "occupation":
+            ts, occ = bd.occupation(a1, q["dw"][0], change_only=q["change_only"], progress_type="silent")
+            exact = (0.0 if q["change_only"] else nb(a1)) + q["dw"][0] * J(a1) * O2 * 2 * (1 - np.cos(a1 * ts)) / a1 ** 2
+            out.label("query:occupation", "change-only" if q["change_only"] else "total")
+            out.check_close("bath/occupation-query", occ, exact, 1e-7 * max(1.0, float(np.abs(exact).max())),
+                            f"query {qi} on the same object (dw={q['dw'][0]}, change_only={q['change_only']})")
+            continue
+        t1, t2 = q["k1"] * dt, q["k2"] * dt
+        dg = tuple(q["dagg"])
+        same = 1.0 if a1 == a2 else 0.0
+        g2 = q["dw"][0] * q["dw"][1] * math.sqrt(J(a1) * J(a2)) * O2
+        th = 0.0 if q["change_only"] else same
+        ex = {(1, 0): th * nb(a1) * np.exp(1j * (a2 * t2 - a1 * t1)) + g2 * np.conj(f(a2, t2)) * f(a1, t1),
+              (0, 1): th * (nb(a1) + 1) * np.exp(-1j * (a2 * t2 - a1 * t1)) + g2 * f(a2, t2) * np.conj(f(a1, t1)),
+              (0, 0): g2 * f(a2, t2) * f(a1, t1),
+              (1, 1): g2 * np.conj(f(a2, t2)) * np.conj(f(a1, t1))}[dg]
+        if q["ip"]:
+            # bath interaction picture: a~(t) = e^{iwt} a(t)
+            ex = ex * np.exp(-1j * ((2 * dg[0] - 1) * a2 * t2 + (2 * dg[1] - 1) * a1 * t1))
+        c = bd.correlation(a1, t1, freq_2=a2, time_2=t2, dw=tuple(q["dw"]), dagg=dg, interaction_picture=q["ip"],
+                           change_only=q["change_only"], progress_type="silent")
+        out.label("query:correlation", "repeat-of-first" if q["same_as_first"] else "other-arguments",
+                  "interaction-picture" if q["ip"] else "schroedinger", "change-only" if q["change_only"] else "total")
+        out.check_close("bath/correlation-query", complex(c), complex(ex), 1e-7 * max(1.0, abs(ex)),
+                        f"query {qi} on the same object: dagg={dg} dw={q['dw']} ip={q['ip']} change_only={q['change_only']}")
     return out
 
 
@@ -507,5 +545,5 @@ def subs(tier):
         Sub("nt", run_nt, strategy=s_nt, budget={"quick": 1200, "thorough": 8000}),
         Sub("dt-anti", run_dt, strategy=s_dt, budget={"quick": 1200, "thorough": 8000}),
         Sub("self-consistency", run_self, strategy=s_self, budget={"quick": 240, "thorough": 1600}),
-        Sub("bath", run_bath, strategy=s_bath, budget={"quick": 96, "thorough": 800}),
+        Sub("bath", run_bath, strategy=s_bath, budget={"quick": 240, "thorough": 2000}),
     ]
